@@ -19,6 +19,10 @@ CHECKS = {
                 text="Envelope header encoder/decoder, flag bits, _make_header (level 0 counts as compressed), the text-only-for-ASCII rule, rejection of short / foreign-magic / unknown-format input with ValueError, make_envelope / read_envelope and the Package entry points are verified over symbolic byte sequences (all 2^16 format/flag pairs and all truncations at once); lemmas header_round_trip, ascii_header and envelope_round_trip compose the contracts. Library inverses (utf-8, pyzstd, pydantic dump/validate) are assumed and exercised on the real stack by the bounded run; package/extension/HUGR codecs are referred to C02/C10.",
                 note=TRUST + "; Package._to_serial and serial Package.deserialize trusted (opaque); MODULE formats outside the claim (native module absent offline).",
                 technique="contract-based deductive verification: VCs from the AST of envelope.py/package.py over symbolic bytes, z3 with z3-4.8.12/cvc5 cross-check; lemmas over the contracts"),
+    "C19": dict(cat="other", design="5/C19",
+                text="Proved for all shots from the real source: _cast_primitive_bit (bits incl. bools are the characters 0/1, everything else ValueError), QsysShot.to_register_bits (loop invariant: the register file equals the ghost replay of the entries processed so far, applied in order; indexed writes grow with zeros; whole-register writes overwrite; every character 0/1; ValueError exactly when some value is not a bit or list of bits) and collate_tags. Multi-shot functions (register_bitstrings with the strict options, register_counts, collated_counts, _flatten) are decided by an exhaustive small-scope run of the real code against the oracle transcribed from the statement - bounded, not proved; hence category other. Three genuine defects found this way were repaired by fix: commits (KNOWN_FINDINGS.jsonl).",
+                note=TRUST + "; regex axiomatised (bounded-checked against `re`); ghost replay/collate defined by primitive recursion, equations instantiated at the loop cursor.",
+                technique="contract-based deductive verification with loop invariants over ghost replay functions (z3, cross-checked) + labelled bounded stand-in for multi-shot functions"),
 }
 
 NOT_APPLICABLE = {
